@@ -37,7 +37,7 @@ func (g *vfGen) raceStress() {
 	if v := os.Getenv("VERIF_RACE_SECS"); v != "" {
 		fmt.Sscan(v, &secs)
 	}
-	procs := []int{2, 4, 16}[g.rng.Intn(3)]
+	procs := []int{2, 4, 16}[g.intn(3)]
 	if v := os.Getenv("VERIF_RACE_PROCS"); v != "" {
 		fmt.Sscan(v, &procs)
 	}
